@@ -241,6 +241,34 @@ fn main() {
             for v in r { println!("{v}"); }
             0
         }
+        "verdict" => {
+            // debug: what do the whole-program and the separate pipeline say about a directory?
+            let dir = std::path::PathBuf::from(&args[2]);
+            let mut files = world::Files::new();
+            fn walk2(root: &std::path::Path, d: &std::path::Path, out: &mut world::Files) {
+                for e in std::fs::read_dir(d).unwrap().flatten() {
+                    let p = e.path();
+                    if p.is_dir() { walk2(root, &p, out); } else if p.extension().is_some_and(|x| x == "gom") {
+                        out.insert(p.strip_prefix(root).unwrap().to_string_lossy().to_string(), std::fs::read(&p).unwrap());
+                    }
+                }
+            }
+            walk2(&dir, &dir, &mut files);
+            let sb = world::Sandbox::new("verdict").unwrap();
+            sb.materialise(&files);
+            let spec = world::ProcSpec { entropy: 1, readdir: 1, ..Default::default() };
+            let (sum, _, _) = ops::run_main(&sb, &spec, false);
+            println!("whole: {} {} {:?} {}", sum.class, sum.kind, sum.diagnostics, sum.message.chars().take(200).collect::<String>());
+            let layout = ops::Layout::scan(&files);
+            match layout.topo(&mut prng::Prng::new(1)) {
+                Some(order) => {
+                    let sep = ops::separate_build(&sb, &layout, &order, &mut prng::Prng::new(2), &mut prng::Prng::new(3), false);
+                    println!("separate: ok={} failure={:?} panicked={:?}", sep.ok, sep.failure.map(|(a, b)| (a, b.chars().take(300).collect::<String>())), sep.panicked);
+                }
+                None => println!("separate: no build order"),
+            }
+            0
+        }
         "c09" => {
             println!("VERIF_SEED={}", opts.seed);
             warm_builtins(prng::mix(&[opts.seed, prng::purpose("warm")]));
